@@ -76,8 +76,11 @@ CLAIMED["C01"] = {
             "and Linearizer::emit_constraint: the emitted row together with what the grown context demands implies the source constraint (requirement chosen from the comparison, constant moved across with its sign). "
             "At model level the constraint loop of Linearizer::linearize (a statement slice of the real function) is proved to drain the queue and to end in a context whose demands (emitted rows, declared domains, derived box) imply EVERY constraint that was ever queued, "
             "wherever both sides are defined: emit_constraint puts the row into the context, the row together with the context implies the source constraint, and popping / lowering preserves the invariant. "
-            "BOUNDED (labelled, not counted as proved): the logic lowerings are checked on the real Linearizer::linearize exhaustively per model - about 7800 single-constraint models over four Boolean variables (every connective pairwise over 18 shapes, third-level samples, asserted / denied / used as 0/1 values in comparisons), all 16 assignments, all values of the Boolean auxiliaries - in BOTH directions (nothing infeasible let in, nothing feasible cut off). "
-            "NOT decided / assumed deductively (listed in the evidence): logic reification and assertion lowering (their soundness is an ASSUMED contract of the loop unit; bounded check above), the converse direction (no source-feasible point is cut off; big-M constants large enough), "
+            "The SOUNDNESS direction of the logic lowering is proved as well (units U01.wit*, U01.las*, U01.tl*): binary_affine_value recognises exactly 0/1-valued affine forms equal to the operand; directional_logic_witness returns a 0/1-valued expression that is 1 only where the operand has the requested truth value "
+            "(every arm: and / or in both polarities, not, implies, iff, xor); try_lower_affine_logic_assertion and lower_logic_assertion make the grown context demand the asserted truth value wherever the expression is defined (every arm); "
+            "the model-level loop now uses lower_logic_assertion through this proved contract instead of an assumed one. "
+            "BOUNDED (labelled, not counted as proved): the logic lowerings are ALSO checked on the real Linearizer::linearize exhaustively per model - about 7800 single-constraint models over four Boolean variables (every connective pairwise over 18 shapes, third-level samples, asserted / denied / used as 0/1 values in comparisons), all 16 assignments, all values of the Boolean auxiliaries - in BOTH directions (nothing infeasible let in, nothing feasible cut off). "
+            "NOT decided / assumed deductively (listed in the evidence): the logic arms of Exp::linearize (reified and / or / xor / implies / iff VALUES, reached through linearize_binary_operands: assumed arms; bounded check above), try_normalize_logic_constraint (assumed), the converse direction (no source-feasible point is cut off; big-M constants large enough), "
             "domain publication after the loop, the equivalence between a sparse row and its dense coefficient vector (U08.coef gives the vector entry-wise), termination.",
     "note": "Trusted: prelude/f64_layer.rs (floats as exact extended reals), prelude/smap.rs (IndexMap<String,_> view), prelude/std_stubs.rs. BoundsAnalyzer::bounds_of is used through its contract, proved in U07.fwd. "
             "Rules: format! abstracted to opaque strings (R6), auxiliary counters abstracted (R21), masked arms end in a diverging stub.",
